@@ -438,8 +438,9 @@ def main(argv):
         "Go harness store.go / store_gen.go / store_c09.go (schema interpreter, history generator, raw corruption writer, fact projection, "
         "message-to-kind mapping) and lib/storefam.py + checks/c09.py (independent consistency oracle)",
     ]
-    c.assumptions = ["the model visits every entry of a bucket; boltz does so unless the fix run removes an entry from a bucket already written in its "
-                     "own transaction (bbolt skip-after-delete): known finding " + DIRTY_KEY + ", design/C09.md section 10.4",
+    c.assumptions = ["the model visits every entry of a bucket (boltz did not when a fix run removed an entry from a bucket already written in its own "
+                     "transaction - bbolt skip-after-delete, repaired in /repo: 'fixed' entry " + DIRTY_KEY + ", design/C09.md section 10.4; the key is "
+                     "reported as a violation again if the behaviour returns)",
                      "fix_convergent / reachable_check_clean do not cover fk jobs declared on child stores (wiring C09xf): tested there, not proved",
                      "storage errors (over-long keys) during a fix are not modelled"]
     proof_ok = c.proof_step(FILES)
